@@ -6,8 +6,9 @@
 
   The 24 `case`s of the codec are instances of three access patterns and are modelled as
   such (`DtClass`): a k-byte scalar, a length-prefixed byte blob, a length-prefixed array of
-  k-byte elements.  Typed `*(uintN_t*)p` accesses go through `load`/`store` on a host of byte
-  order `e` and the Byteorder helper; `uint16_t` arithmetic wraps.  Caller objects
+  k-byte elements.  Multi-byte integers are moved between the PDU and `uintN_t` objects with
+  `memcpy` (`load`/`store` of the object's bytes on a host of byte order `e`) and converted
+  with the Byteorder helper; `uint16_t` arithmetic wraps.  Caller objects
   (`VssData_t`, `VssPath_t`, the element arrays) are abstracted to values: `CVal` in,
   `DVal` out; a NULL destination is `haveDst = false`.
   Tie to the C text: correspondence check (harness/vssops.c vs the driver).
@@ -37,7 +38,8 @@ def vssPad (scale : Nat) (m : Mem) (pdu len : Nat) : Mem :=
 def vssAddrMode (m : Mem) (pdu : Nat) : Nat := getNamed Spec.vss m pdu "ADDR_MODE"
 def vssDatatype (m : Mem) (pdu : Nat) : Nat := getNamed Spec.vss m pdu "VSS_DATATYPE"
 
-/-- `*(uint16_t*)a` read and converted from big-endian. -/
+/-- `Vss_ReadBe16/32/64(a)`: `memcpy` of `k` bytes into a `uintN_t` object, then `BeToCpuN`
+    (`k = 1`: a plain byte read). -/
 def rdBe (e : Endian) (k : Nat) (m : Mem) (a : Nat) : Nat :=
   match k with
   | 1 => (m a).val
@@ -46,7 +48,8 @@ def rdBe (e : Endian) (k : Nat) (m : Mem) (a : Nat) : Nat :=
   | 8 => beCpu64 e (load e 8 m a)
   | _ => 0
 
-/-- `*(uintN_t*)a = CpuToBeN(x)` -/
+/-- `Vss_WriteBe16/32/64(a, x)`: `CpuToBeN(x)` into a `uintN_t` object, then `memcpy` of its
+    `k` bytes to `a` (`k = 1`: a plain byte store). -/
 def wrBe (e : Endian) (k : Nat) (m : Mem) (a x : Nat) : Mem :=
   match k with
   | 1 => m.set a (Fin.ofNat 256 x)
